@@ -47,6 +47,8 @@ def run(ctx):
     c03.canonical_min_rule(dep(ctx, "C04", "C03"), "C03.M")
     from . import c06
     c06.reader_deps(ctx, "C04")
+    from . import c15
+    c15.cli_arm_dep(ctx, "C04", ('Oligo',))
 
 
 def row_rule(ctx, fv, who, root=None, rule="C04.F"):
